@@ -1,5 +1,5 @@
 (* Model of StaticResourceController (production entry point) and Range::get_content_range_list *)
-From Rws Require Import Str Num Fs UrlParse RangeSpec Request GenMime Mime.
+From Rws Require Import Str Num Unicase Fs UrlParse RangeSpec Request GenMime Mime.
 Open Scope N_scope.
 
 Inductive prov := FromFile (canon : list (list N)) (via_link : bool) | BuiltIn | Message.
@@ -18,7 +18,7 @@ Definition RANGE_NAME : list N := [82;97;110;103;101].
 Definition DEFAULT_RANGE : list N := BYTES_EQ ++ [48;45].       (* "bytes=0-" *)
 
 Definition get_header (r : request) (name : list N) : option header :=
-  find (fun h => beqs (lower (hname h)) (lower name)) (headers r).
+  find (fun h => beqs (ulower (hname h)) (ulower name)) (headers r).
 
 (* URL::parse(...).unwrap() on "http://localhost" ++ uri *)
 Definition path_or_panic (uri : list N) : sres (list N) :=
